@@ -405,6 +405,14 @@ type Swamp interface {
 	// 1. Securely deleting specific data entries, such as user accounts or records, from the Swamp.
 	DeleteTreasure(key string, shadowDelete bool) error
 
+	// DeleteTreasureIf deletes the treasure like DeleteTreasure, but only when cond reports true for
+	// it. cond is evaluated while the treasure's guard is held by the delete itself, so the decision
+	// and the removal cannot be separated by another writer of the same key: a caller that wants to
+	// remove a treasure "because it became empty" must not decide that under its own guard and delete
+	// afterwards (the guard is not re-entrant), it passes the emptiness test as cond instead.
+	// Returns (false, nil) when the treasure exists but cond rejected the deletion.
+	DeleteTreasureIf(key string, shadowDelete bool, cond func(t treasure.Treasure) bool) (bool, error)
+
 	// CloneTreasures returns a clone of the main beaconKey map.
 	//
 	// Real-world use-case:
@@ -2601,26 +2609,36 @@ func (s *swamp) CountTreasures() int {
 // if the shadowDelete is true, then the treasure will be flagged as deleted and it will not be deleted from the chroniclerInterface
 // if the shadowDelete is false, then the treasure will be deleted from the chroniclerInterface too
 func (s *swamp) DeleteTreasure(key string, shadowDelete bool) error {
+	_, err := s.DeleteTreasureIf(key, shadowDelete, nil)
+	return err
+}
+
+// DeleteTreasureIf deletes the treasure when cond (evaluated under the treasure's guard) allows it.
+// A nil cond always allows the deletion.
+func (s *swamp) DeleteTreasureIf(key string, shadowDelete bool, cond func(t treasure.Treasure) bool) (bool, error) {
 
 	// set the last interaction time to the current time
 	atomic.StoreInt64(&s.lastInteractionTime, time.Now().UnixNano())
 	if !s.beaconKey.IsExists(key) {
-		return errors.New(ErrorTreasureDoesNotExists)
+		return false, errors.New(ErrorTreasureDoesNotExists)
 	}
 
 	// delete the treasure from the beaconKey
 	// delete the treasure from the swamp and from the chroniclerInterface too
-	s.deleteHandler(key, shadowDelete)
+	if s.deleteHandlerIf(key, shadowDelete, cond) == nil {
+		// cond rejected the deletion (or the treasure was removed by someone else meanwhile)
+		return false, nil
+	}
 
 	// destroy the swamp if there is no treasure in it
 	if s.beaconKey.Count() == 0 {
 		// feloldjuk a vigiliát, mert nincs több treasure a swampban és a Destroy megkövetelei a Vigil feloldását
 		s.CeaseVigil()
 		s.Destroy()
-		return nil
+		return true, nil
 	}
 
-	return nil
+	return true, nil
 
 }
 
@@ -2938,6 +2956,12 @@ func (s *swamp) sendSwampInfo() {
 
 // deleteHandler deletes the treasure from the swamp
 func (s *swamp) deleteHandler(key string, shadowDelete bool) (deletedTreasure treasure.Treasure) {
+	return s.deleteHandlerIf(key, shadowDelete, nil)
+}
+
+// deleteHandlerIf is deleteHandler with an optional condition that is evaluated once the guard of
+// the treasure is held; when it reports false nothing is deleted and nil is returned.
+func (s *swamp) deleteHandlerIf(key string, shadowDelete bool, cond func(t treasure.Treasure) bool) (deletedTreasure treasure.Treasure) {
 
 	// clone the treasure itself to the clonedTreasure
 	treasureObj := s.beaconKey.Get(key)
@@ -2947,6 +2971,10 @@ func (s *swamp) deleteHandler(key string, shadowDelete bool) (deletedTreasure tr
 
 	guardID := treasureObj.StartTreasureGuard(true, guard.BodyAuthID)
 	defer treasureObj.ReleaseTreasureGuard(guardID)
+
+	if cond != nil && !cond(treasureObj) {
+		return nil
+	}
 
 	// Még változtatás előtt lemásoljuk a Treasure-t, hogy egy clone-t készíthessünk róla, hogy a törölt treasure-t minden
 	// adatával együtt vissza tudjuk adni.
